@@ -49,52 +49,105 @@ func lineDecisionsRule(r *Run, rule string) {
 		}
 		return false
 	}
-	var dependsOnLine func(v ssa.Value, depth int, seen map[ssa.Value]bool) bool
-	dependsOnLine = func(v ssa.Value, depth int, seen map[ssa.Value]bool) bool {
-		if v == nil || depth > 12 || seen[v] {
+	// dependsOnLine: v is computed from a line. lineParams: parameters of the function under analysis that
+	// receive a line (when a helper's result is followed into the helper).
+	callMemo := map[string]bool{}
+	var dependsOnLine func(v ssa.Value, depth int, seen map[ssa.Value]bool, lineParams map[*ssa.Parameter]bool) bool
+	dependsOnLine = func(v ssa.Value, depth int, seen map[ssa.Value]bool, lineParams map[*ssa.Parameter]bool) bool {
+		if v == nil || depth > 14 || seen[v] {
 			return false
 		}
 		seen[v] = true
 		if isLineRead(v) {
 			return true
 		}
+		rec := func(x ssa.Value) bool { return dependsOnLine(x, depth+1, seen, lineParams) }
+		// result idx of a call: of a builtin, its operands; of a function of the module, what it returns there
+		// given which of its parameters carry a line (a line handed to a helper only for its messages does not
+		// make the helper's verdict depend on it)
+		callResult := func(c *ssa.Call, idx int) bool {
+			if _, isB := c.Call.Value.(*ssa.Builtin); isB {
+				for _, a := range c.Call.Args {
+					if isIntType(a.Type()) && rec(a) {
+						return true
+					}
+				}
+				return false
+			}
+			g := c.Call.StaticCallee()
+			if g == nil || !inModule(g) || len(g.Blocks) == 0 || len(g.Params) != len(c.Call.Args) {
+				return false
+			}
+			lp := map[*ssa.Parameter]bool{}
+			mask := uint64(0)
+			for i, a := range c.Call.Args {
+				if isIntType(a.Type()) && dependsOnLine(a, depth+1, map[ssa.Value]bool{}, lineParams) {
+					lp[g.Params[i]] = true
+					mask |= 1 << uint(i%64)
+				}
+			}
+			mk := fmt.Sprintf("%p/%d/%x", g, idx, mask)
+			if r, have := callMemo[mk]; have {
+				return r
+			}
+			callMemo[mk] = false // in progress (recursion): no dependence found on this way round
+			res := false
+			defer func() { callMemo[mk] = res }()
+			for _, b := range g.Blocks {
+				ret, isRet := b.Instrs[len(b.Instrs)-1].(*ssa.Return)
+				if !isRet {
+					continue
+				}
+				ops := retOperands(ret)
+				if idx < len(ops) && dependsOnLine(ops[idx], depth+2, map[ssa.Value]bool{}, lp) {
+					res = true
+					return true
+				}
+				// (which return is taken may depend on a line as well)
+				for _, f := range dominatingFacts(b) {
+					if dependsOnLine(f.cond, depth+2, map[ssa.Value]bool{}, lp) {
+						res = true
+						return true
+					}
+				}
+			}
+			return false
+		}
 		switch x := v.(type) {
+		case *ssa.Parameter:
+			return lineParams[x]
 		case *ssa.BinOp:
-			return dependsOnLine(x.X, depth+1, seen) || dependsOnLine(x.Y, depth+1, seen)
+			return rec(x.X) || rec(x.Y)
 		case *ssa.UnOp:
 			if x.Op == token.MUL {
 				// a local the line was stored in
 				if al, ok := x.X.(*ssa.Alloc); ok {
 					for _, ref := range *al.Referrers() {
-						if st, ok := ref.(*ssa.Store); ok && st.Addr == ssa.Value(al) && dependsOnLine(st.Val, depth+1, seen) {
+						if st, ok := ref.(*ssa.Store); ok && st.Addr == ssa.Value(al) && rec(st.Val) {
 							return true
 						}
 					}
 				}
 				return false
 			}
-			return dependsOnLine(x.X, depth+1, seen)
+			return rec(x.X)
 		case *ssa.Convert:
-			return dependsOnLine(x.X, depth+1, seen)
+			return rec(x.X)
 		case *ssa.ChangeType:
-			return dependsOnLine(x.X, depth+1, seen)
+			return rec(x.X)
 		case *ssa.Phi:
 			for _, e := range x.Edges {
-				if dependsOnLine(e, depth+1, seen) {
+				if rec(e) {
 					return true
 				}
 			}
 		case *ssa.Call:
-			// min / max / a pure helper of the module fed with a line
-			if _, isB := x.Call.Value.(*ssa.Builtin); isB || (x.Call.StaticCallee() != nil && inModule(x.Call.StaticCallee())) {
-				for _, a := range x.Call.Args {
-					if isIntType(a.Type()) && dependsOnLine(a, depth+1, seen) {
-						return true
-					}
-				}
-			}
+			return callResult(x, 0)
 		case *ssa.Extract:
-			return dependsOnLine(x.Tuple, depth+1, seen)
+			if c, isCall := x.Tuple.(*ssa.Call); isCall {
+				return callResult(c, x.Index)
+			}
+			return rec(x.Tuple)
 		}
 		return false
 	}
@@ -116,7 +169,7 @@ func lineDecisionsRule(r *Run, rule string) {
 						continue
 					}
 					nBranches++
-					if !dependsOnLine(iff.Cond, 0, map[ssa.Value]bool{}) {
+					if !dependsOnLine(iff.Cond, 0, map[ssa.Value]bool{}, nil) {
 						continue
 					}
 					// the one licensed use: the line counter's own bookkeeping compares characters, not lines; a
